@@ -55,6 +55,21 @@ S = {
  'C16-f': 'C16 secret-looking target keys with the library debug logging on',
  'C18-e': 'C18 namespaces hand their defaults over as one-shot iterables (itertools.chain, generator)',
  'C18-f': 'C18 generator / list-redundant run on a living enforcer after the files were rewritten',
+ 'C01-e': 'C01 stratum A also run with only one or two distinct leaves repeated (`a or a and b`)',
+ 'C01-f': 'C01 third leaf family `kw`: attribute names that begin with the letters of a keyword (org1, android2, notify3)',
+ 'C04-e': 'C04 stratum `overlap`: two evaluations of one role:%(k)s check overlap, every single pre-emption (deterministic scheduler)',
+ 'C04-f': 'C04 stratum `list-form`: list-of-lists rules whose role names contain spaces / parentheses',
+ 'C05-e': 'C05 stratum `overlap`: two evaluations of one attribute check with different targets overlap, every single pre-emption',
+ 'C05-f': 'C05 stratum `context-sequence`: a RequestContext whose attributes are rebound / which is copied between calls',
+ 'C06-e': 'C06 monitor (iii): an unknown policy name enforced directly decides like an undefined reference (all default modes)',
+ 'C06-f': 'C06 stratum `checker-tool`: the same rule sets decided by oslopolicy-checker (its own stand-in enforcer)',
+ 'C12-f': 'C12 a registered default references a `helper` rule that only the files define and that the histories edit',
+ 'C14-e': 'C14 stratum D: a referenced rule removed from the living store (del / pop / same check trees under an enforcer that lacks it)',
+ 'C14-f': 'C14 stratum F: a policy file overrides a registered policy with a list-of-lists / non-text value',
+ 'C15-f': 'C15 leaves whose kind is a letter-case variant of a registered kind (Role:, RULE:, Http:), text and list form',
+ 'C17-e': 'C17 check strings and policy names that push the rule line past 80 columns',
+ 'C17-f': 'C17 a default registered under the deprecated old name of a renamed default, listed after it',
+ 'C19-f': 'C19 target files that flatten to nothing ({}, nested empty mappings)',
 }
 n = 0
 for meta in sorted(glob.glob('/verif/seeded/*/meta.json')):
